@@ -31,11 +31,17 @@ func newDiffState(oldMast *Mast, newMast *Mast) *diffState {
 	var dc diffState
 	dc.alreadyNotifiedOldLink = map[uint8]interface{}{}
 	dc.alreadyNotifiedNewLink = map[uint8]interface{}{}
+	// A tree emptied by Delete has a nil root: there is nothing to consider on
+	// that side (a nil link on the stack would be taken for an entry to yield).
 	if oldMast != nil {
 		dc.oldMast = oldMast
-		dc.oldStack = newIterItemStack(iterItem{considerLink: oldMast.root})
+		if oldMast.root != nil {
+			dc.oldStack = newIterItemStack(iterItem{considerLink: oldMast.root})
+		}
 	}
-	dc.newStack = newIterItemStack(iterItem{considerLink: newMast.root})
+	if newMast.root != nil {
+		dc.newStack = newIterItemStack(iterItem{considerLink: newMast.root})
+	}
 	return &dc
 }
 
